@@ -93,9 +93,11 @@ class MockHost:
                 d = s2.sock.recv(n)
                 if d:
                     with self.lock:
-                        self.conn_bytes[cid] += len(d)
-                        if len(self.conn_raw[cid]) < RAW_CAP:
-                            self.conn_raw[cid] += d[:RAW_CAP - len(self.conn_raw[cid])]
+                        # a driver may clear these maps between batches while this connection is still open
+                        self.conn_bytes[cid] = self.conn_bytes.get(cid, 0) + len(d)
+                        raw = self.conn_raw.setdefault(cid, bytearray())
+                        if len(raw) < RAW_CAP:
+                            raw += d[:RAW_CAP - len(raw)]
                 return d
         cs = Counting(c)
         try:
